@@ -2154,6 +2154,18 @@ namespace Clipper2Lib {
       bot_y_ = y;  // bot_y_ == bottom of scanbeam
 #ifdef CLIPPER2_VERIF
       CLIPPER2_VERIF_YIELD(1);
+      if (verif::ael_fn)
+      {
+        int n = 0;
+        for (Active* a = actives_; a; a = a->next_in_ael, ++n)
+        {
+          const long long v[14] = { y, a->bot.x, a->bot.y, a->top.x, a->top.y, a->curr_x, a->wind_dx,
+            a->wind_cnt, a->wind_cnt2, static_cast<long long>(GetPolyType(*a)), IsOpen(*a),
+            a->outrec != nullptr, static_cast<long long>(cliptype_), static_cast<long long>(fillrule_) };
+          verif::ael_fn(n, v);
+        }
+        verif::ael_fn(-1, nullptr);
+      }
 #endif
       if (!PopScanline(y)) break;  // y new top of scanbeam
       DoIntersections(y);
